@@ -2,7 +2,7 @@
    tiling.  Property theorems only. *)
 From Coq Require Import List ZArith NArith Bool Sorting.Permutation.
 From Pcfg Require Import Str Multiword Detect Segment SegCorr DetectProofsStr DetectProofsDrive DetectProofsSimple
-     DetectProofsMw DetectProofsSeg DetectProofsWeb DetectProofsKbd DetectProofsCount DetectProofsPipe DetectProofsInst.
+     DetectProofsMw DetectProofsSeg DetectProofsWeb DetectProofsKbd DetectProofsCount DetectProofsAdj DetectProofsPipe DetectProofsInst.
 From PcfgGen Require Import Consts_gen Unicode_gen.
 Import ListNotations.
 Open Scope Z_scope.
@@ -110,13 +110,14 @@ Proof. exact parse_c_counters_fold. Qed.
    cuts the first maximal letter run exactly at the word lengths
    multiword_detector.parse returned for its lower-casing (C05_sound_multiword
    says when that is more than one word).
-   PARTIAL with respect to the statement "neighbouring tiles of a D tile are
-   not D" on the final section list: proved here per section (with
-   C05_tiling: A tiles are letters only, O tiles have no digit, and a letter
-   is never a digit), not as an adjacency statement about the final list;
-   full statement:  forall m pw r, parse_c m pw = POk r ->
-     forall a x y b, p_sections r = a ++ x :: y :: b -> isC 6 x = true -> isC 6 y = false. *)
-Theorem C05_sound_digit_partial : forall s p f, detect_digits c_isdigit s = DYes p f ->
+   C05_sound_digit: on the final section list no two digit sections are
+   adjacent -- with C05_tiling (A tiles letters only, O tiles no digit, a
+   letter is never a digit) a digit tile is a maximal digit run among the
+   characters the earlier detectors left unlabelled. *)
+Theorem C05_sound_digit : forall m pw r, pw <> [] -> parse_c m pw = POk r ->
+  forall a x y b, p_sections r = a ++ x :: y :: b -> isC 6 x = true -> isC 6 y = false.
+Proof. exact parse_c_digit_maximal. Qed.
+Theorem C05_sound_digit_run : forall s p f, detect_digits c_isdigit s = DYes p f ->
   exists l1 l2 l3, s = l1 ++ l2 ++ l3 /\ forallb (fun c => negb (c_isdigit c)) l1 = true /\
     forallb c_isdigit l2 = true /\ l2 <> [] /\ stops c_isdigit l3 /\
     p = osec l1 ++ [(l2, Some (LD (len l2)))] ++ osec l3 /\ f = l2.
@@ -174,5 +175,6 @@ Proof. exact demo_parse. Qed.
 Print Assumptions split_driver_tiling.
 Print Assumptions C05_tiling.
 Print Assumptions C05_counters.
+Print Assumptions C05_sound_digit.
 Print Assumptions C05_sound_multiword.
 Print Assumptions C05_refuted_lower_0130_website.
